@@ -1,2 +1,603 @@
 import DuneVerif.Common.Proto
-def main : IO Unit := DV.runDriver fun _ => "bad-op"
+import DuneVerif.Model.C09
+import DuneVerif.Model.C09LU
+/-! line-protocol driver for C09 (see harness/cxx_c09.cc for the op lines).
+
+Scalar types of the correspondence: `i32`/`i64` as exact `Int` with the range of the C++ type (an operation
+whose result leaves the range, divides by zero or shifts out of range is `invalid` — the harness never executes
+undefined behaviour), `b` as `Bool` with the C++ promotion to `int`, `f64`/`f32` as Lean's `Float`/`Float32`
+(IEEE binary64/binary32 `+ - * /`, comparisons, `fabs`; values travel as bit patterns, every NaN as the canonical
+quiet NaN).  The cmath functions are *uninterpreted*: the op line carries the table of the scalar function on the
+operand values, the model applies it through the translated loop. -/
+open DV DV.C09 DV.C09.Gen
+
+namespace C09Driver
+
+/-- what the driver needs of a scalar type -/
+structure Sem (α : Type) where
+  parse : String → Option α
+  «show» : α → String
+  bin : BinOp → Option (α → α → Option α)        -- outer none: the expression does not exist for the type
+  shift : ShiftOp → Option (α → α → Option α)
+  cmp : CmpOp → α → α → Bool
+  truth : α → Bool
+  un : UnOp → Option (α → Option α)
+  inc : IncOp → Option (α → Option α)
+  zero : α
+  classify : Option (α → Bool × Bool × Bool)     -- (isNaN, isInf, isFinite) for floating point
+
+def hexPad (digits : Nat) (n : Nat) : String :=
+  let h := (toHex n).toList
+  "x" ++ String.ofList (List.replicate (digits - h.length) '0' ++ h)
+
+def parseHexTok (s : String) : Option Nat :=
+  match s.toList with
+  | 'x' :: rest => parseHex? (String.ofList rest)
+  | _ => none
+
+-- integers ----------------------------------------------------------------------------------------------
+
+def inRange (w : Nat) (x : Int) : Option Int :=
+  if -(2 : Int) ^ (w - 1) ≤ x ∧ x < (2 : Int) ^ (w - 1) then some x else none
+
+def toU (w : Nat) (x : Int) : Nat := (x % (2 : Int) ^ w).toNat
+def ofU (w : Nat) (n : Nat) : Int := if n < 2 ^ (w - 1) then (n : Int) else (n : Int) - (2 : Int) ^ w
+
+def intBin (w : Nat) : BinOp → Int → Int → Option Int
+  | .add, a, b => inRange w (a + b)
+  | .sub, a, b => inRange w (a - b)
+  | .mul, a, b => inRange w (a * b)
+  | .div, a, b => if b = 0 then none else inRange w (Int.tdiv a b)
+  | .mod, a, b => if b = 0 ∨ (a = -(2 : Int) ^ (w - 1) ∧ b = -1) then none else some (Int.tmod a b)
+  | .band, a, b => some (ofU w (Nat.land (toU w a) (toU w b)))
+  | .bor, a, b => some (ofU w (Nat.lor (toU w a) (toU w b)))
+  | .bxor, a, b => some (ofU w (Nat.xor (toU w a) (toU w b)))
+
+def intShift (w : Nat) : ShiftOp → Int → Int → Option Int
+  | .shl, a, b => if 0 ≤ b ∧ b < w ∧ 0 ≤ a then inRange w (a * (2 : Int) ^ b.toNat) else none
+  | .shr, a, b => if 0 ≤ b ∧ b < w then some (Int.shiftRight a b.toNat) else none
+
+def intCmp : CmpOp → Int → Int → Bool
+  | .lt, a, b => a < b | .gt, a, b => a > b | .le, a, b => a ≤ b | .ge, a, b => a ≥ b
+  | .eq, a, b => a = b | .ne, a, b => a ≠ b
+
+def intUn (w : Nat) : UnOp → Int → Option Int
+  | .pos, a => some a
+  | .neg, a => inRange w (-a)
+  | .bnot, a => some (-a - 1)
+
+def intInc (w : Nat) : IncOp → Int → Option Int
+  | .inc, a => inRange w (a + 1)
+  | .dec, a => inRange w (a - 1)
+
+def semInt (w : Nat) : Sem Int where
+  parse := fun s => (s.toInt?).bind (inRange w)
+  «show» := toString
+  bin := fun op => some (intBin w op)
+  shift := fun op => some (intShift w op)
+  cmp := intCmp
+  truth := fun a => a ≠ 0
+  un := fun op => some (intUn w op)
+  inc := fun op => some (intInc w op)
+  zero := 0
+  classify := none
+
+-- bool: promoted to int, result converted back ------------------------------------------------------------
+
+def b2i (b : Bool) : Int := if b then 1 else 0
+
+def semBool : Sem Bool where
+  parse := fun s => if s = "1" then some true else if s = "0" then some false else none
+  «show» := fun b => if b then "1" else "0"
+  bin := fun op => some fun a b => (intBin 32 op (b2i a) (b2i b)).map (· ≠ 0)
+  shift := fun op => some fun a b => (intShift 32 op (b2i a) (b2i b)).map (· ≠ 0)
+  cmp := fun op a b => intCmp op (b2i a) (b2i b)
+  truth := id
+  un := fun op => some fun a => (intUn 32 op (b2i a)).map (· ≠ 0)
+  inc := fun _ => none
+  zero := false
+  classify := none
+
+-- floating point -------------------------------------------------------------------------------------------
+
+def semF64 : Sem Float where
+  parse := fun s => match parseHexTok s with
+    | some n => if n < 2 ^ 64 then some (Float.ofBits (UInt64.ofNat n)) else none
+    | none => s.toInt?.map Float.ofInt
+  «show» := fun x => hexPad 16 x.toBits.toNat
+  bin := fun op => match op with
+    | .add => some fun a b => some (a + b) | .sub => some fun a b => some (a - b)
+    | .mul => some fun a b => some (a * b) | .div => some fun a b => some (a / b)
+    | _ => none
+  shift := fun _ => none
+  cmp := fun op a b => match op with
+    | .lt => a < b | .gt => a > b | .le => a ≤ b | .ge => a ≥ b | .eq => a == b | .ne => !(a == b)
+  truth := fun a => !(a == 0)
+  un := fun op => match op with | .pos => some fun a => some a | .neg => some fun a => some (-a) | .bnot => none
+  inc := fun op => match op with | .inc => some fun a => some (a + 1) | .dec => some fun a => some (a - 1)
+  zero := 0
+  classify := some fun a => (a.isNaN, a.isInf, a.isFinite)
+
+def semF32 : Sem Float32 where
+  parse := fun s => match parseHexTok s with
+    | some n => if n < 2 ^ 32 then some (Float32.ofBits (UInt32.ofNat n)) else none
+    | none => s.toInt?.map Float32.ofInt
+  «show» := fun x => hexPad 8 x.toBits.toNat
+  bin := fun op => match op with
+    | .add => some fun a b => some (a + b) | .sub => some fun a b => some (a - b)
+    | .mul => some fun a b => some (a * b) | .div => some fun a b => some (a / b)
+    | _ => none
+  shift := fun _ => none
+  cmp := fun op a b => match op with
+    | .lt => a < b | .gt => a > b | .le => a ≤ b | .ge => a ≥ b | .eq => a == b | .ne => !(a == b)
+  truth := fun a => !(a == 0)
+  un := fun op => match op with | .pos => some fun a => some a | .neg => some fun a => some (-a) | .bnot => none
+  inc := fun op => match op with | .inc => some fun a => some (a + 1) | .dec => some fun a => some (a - 1)
+  zero := 0
+  classify := some fun a => (a.isNaN, a.isInf, a.isFinite)
+
+-- vectors -------------------------------------------------------------------------------------------------
+
+def listToks (s : String) : Option (List String) :=
+  let cs := s.toList
+  if cs.length < 2 then none else
+  if cs.head? ≠ some '[' || cs.getLast? ≠ some ']' then none else
+  let inner := String.ofList ((cs.drop 1).dropLast)
+  if inner.isEmpty then some [] else some (inner.splitOn ",")
+
+def mkVec {α : Type} (S : Nat) (l : List α) : Option (Vec α S) :=
+  if h : l.toArray.size = S then some ⟨l.toArray, h⟩ else none
+
+def chunks {α : Type} (k : Nat) : Nat → List α → List (List α)
+  | 0, _ => []
+  | n + 1, l => l.take k :: chunks k n (l.drop k)
+
+def parseFlat {α : Type} (p : String → Option α) (S : Nat) (tok : String) : Option (Vec α S) :=
+  (listToks tok).bind fun ts => (ts.mapM p).bind (mkVec S)
+
+def parseNested {α : Type} (p : String → Option α) (S₁ S₂ : Nat) (tok : String) : Option (Vec (Vec α S₂) S₁) :=
+  (listToks tok).bind fun ts => (ts.mapM p).bind fun xs =>
+    if xs.length = S₁ * S₂ then ((chunks S₂ S₁ xs).mapM (mkVec S₂)).bind (mkVec S₁) else none
+
+def showFlat {α : Type} {S : Nat} (sh : α → String) (v : Vec α S) : String :=
+  "[" ++ ",".intercalate (v.toList.map sh) ++ "]"
+def showNested {α : Type} {S₁ S₂ : Nat} (sh : α → String) (v : Vec (Vec α S₂) S₁) : String :=
+  "[" ++ ",".intercalate ((Simd.flatten v).map sh) ++ "]"
+
+def showB (b : Bool) : String := if b then "1" else "0"
+
+inductive Shape where
+  | flat (S : Nat) | nested (S₁ S₂ : Nat)
+
+def parseShape (s : String) : Option Shape :=
+  match s.splitOn "x" with
+  | [a] => a.toNat?.bind fun S => if S ∈ [1, 2, 4, 8] then some (.flat S) else none
+  | [a, b] => a.toNat?.bind fun S₁ => b.toNat?.bind fun S₂ =>
+      if (S₁, S₂) ∈ [(2, 2), (4, 2), (2, 4)] then some (.nested S₁ S₂) else none
+  | _ => none
+
+def nested? : Shape → Bool | .nested .. => true | _ => false
+
+def binOpOf (s : String) : Option BinOp :=
+  match s with
+  | "add" => some .add | "sub" => some .sub | "mul" => some .mul | "div" => some .div | "mod" => some .mod
+  | "band" => some .band | "bor" => some .bor | "bxor" => some .bxor | _ => none
+def shiftOpOf (s : String) : Option ShiftOp := match s with | "shl" => some .shl | "shr" => some .shr | _ => none
+def cmpOpOf (s : String) : Option CmpOp :=
+  match s with
+  | "lt" => some .lt | "gt" => some .gt | "le" => some .le | "ge" => some .ge | "eq" => some .eq | "ne" => some .ne
+  | _ => none
+def boolOpOf (s : String) : Option BoolOp := match s with | "land" => some .land | "lor" => some .lor | _ => none
+def assignOpOf (s : String) : Option AssignOp :=
+  match s with
+  | "add" => some .add | "sub" => some .sub | "mul" => some .mul | "div" => some .div | "mod" => some .mod
+  | "shl" => some .shl | "shr" => some .shr | "band" => some .band | "bor" => some .bor | "bxor" => some .bxor
+  | _ => none
+def unOpOf (s : String) : Option UnOp := match s with | "pos" => some .pos | "neg" => some .neg | "bnot" => some .bnot | _ => none
+
+def res (o : Option String) : String := o.getD "invalid"
+def noSuch : String := "ERR:NoSuchOp"
+
+/-- operations on one scalar type -/
+def execT {α : Type} (T : Sem α) (sh : Shape) (kind : String) (rest : List String) : String :=
+  let logicSem : BoolOp → α → α → Option Bool := fun op a b =>
+    match op with | .land => some (T.truth a && T.truth b) | .lor => some (T.truth a || T.truth b)
+  let cmpSem : CmpOp → α → α → Option Bool := fun op a b => some (T.cmp op a b)
+  let lt : α → α → Bool := T.cmp .lt
+  match sh with
+  | .flat S =>
+    let pv := parseFlat T.parse S
+    let sv := showFlat (S := S) T.show
+    let sm := showFlat (S := S) showB
+    match kind, rest with
+    | "bin", [form, opn, ta, tb] =>
+      -- arithmetic
+      match binOpOf opn with
+      | some op => match T.bin op with
+        | none => noSuch
+        | some f =>
+          let sem : BinOp → α → α → Option α := fun _ => f
+          match form with
+          | "vv" => match pv ta, pv tb with | some a, some b => res ((Simd.binaryVV sem op a b).map sv) | _, _ => "bad-op"
+          | "vs" => match pv ta, T.parse tb with | some a, some s => res ((Simd.binaryVS sem op a s).map sv) | _, _ => "bad-op"
+          | "sv" => match T.parse ta, pv tb with | some s, some b => res ((Simd.binarySV sem op s b).map sv) | _, _ => "bad-op"
+          | _ => "bad-op"
+      | none =>
+      match shiftOpOf opn with
+      | some op => match T.shift op with
+        | none => noSuch
+        | some f =>
+          let sem : ShiftOp → α → α → Option α := fun _ => f
+          match form with
+          | "vv" => match pv ta, pv tb with | some a, some b => res ((Simd.shiftVV sem op a b).map sv) | _, _ => "bad-op"
+          | "vs" => match pv ta, T.parse tb with | some a, some s => res ((Simd.shiftVS sem op a s).map sv) | _, _ => "bad-op"
+          | _ => noSuch
+      | none =>
+      match cmpOpOf opn with
+      | some op =>
+          match form with
+          | "vv" => match pv ta, pv tb with | some a, some b => res ((Simd.compareVV cmpSem op a b).map sm) | _, _ => "bad-op"
+          | "vs" => match pv ta, T.parse tb with | some a, some s => res ((Simd.compareVS cmpSem op a s).map sm) | _, _ => "bad-op"
+          | "sv" => match T.parse ta, pv tb with | some s, some b => res ((Simd.compareSV cmpSem op s b).map sm) | _, _ => "bad-op"
+          | _ => "bad-op"
+      | none =>
+      match boolOpOf opn with
+      | some op =>
+          match form with
+          | "vv" => match pv ta, pv tb with | some a, some b => res ((Simd.logicVV logicSem op a b).map sm) | _, _ => "bad-op"
+          | "vs" => match pv ta, T.parse tb with | some a, some s => res ((Simd.logicVS logicSem op a s).map sm) | _, _ => "bad-op"
+          | "sv" => match T.parse ta, pv tb with | some s, some b => res ((Simd.logicSV logicSem op s b).map sm) | _, _ => "bad-op"
+          | _ => "bad-op"
+      | none =>
+      match opn, form, pv ta, pv tb with
+      | "max", "vv", some a, some b => res ((Simd.stdBin (fun _ x y => some (Simd.stdMax lt x y)) StdBinOp.f_max a b).map sv)
+      | "min", "vv", some a, some b => res ((Simd.stdBin (fun _ x y => some (Simd.stdMin lt x y)) StdBinOp.f_min a b).map sv)
+      | "maskor", "vv", some a, some b =>
+          -- defaults.hh: mask(v1) || mask(v2), mask(v) = v != 0
+          res (((Simd.compareVS cmpSem .ne a T.zero).bind fun ma => (Simd.compareVS cmpSem .ne b T.zero).bind fun mb =>
+            Simd.logicVV (fun (_ : BoolOp) x y => some (x || y)) .lor ma mb).map sm)
+      | "maskand", "vv", some a, some b =>
+          res (((Simd.compareVS cmpSem .ne a T.zero).bind fun ma => (Simd.compareVS cmpSem .ne b T.zero).bind fun mb =>
+            Simd.logicVV (fun (_ : BoolOp) x y => some (x && y)) .land ma mb).map sm)
+      | _, _, _, _ => if opn ∈ ["max", "min", "maskor", "maskand"] then noSuch else "bad-op"
+    | "asg", [form, opn, ta, tb] =>
+      match assignOpOf opn with
+      | none => noSuch
+      | some op =>
+        let f? : Option (α → α → Option α) := match binOpOf opn with
+          | some b => T.bin b
+          | none => (shiftOpOf opn).bind T.shift
+        match f? with
+        | none => noSuch
+        | some f =>
+          let sem : AssignOp → α → α → Option α := fun _ => f
+          match form with
+          | "vv" => match pv ta, pv tb with | some a, some b => res ((Simd.assignVV sem op a b).map sv) | _, _ => "bad-op"
+          | "vs" => match pv ta, T.parse tb with | some a, some s => res ((Simd.assignVS sem op a s).map sv) | _, _ => "bad-op"
+          | _ => noSuch
+    | "un", [opn, ta] =>
+      match pv ta with
+      | none => "bad-op"
+      | some a =>
+        match unOpOf opn with
+        | some op => match T.un op with
+          | none => noSuch
+          | some f => res ((Simd.unary (fun _ => f) op a).map sv)
+        | none =>
+        match opn with
+        | "lnot" => res ((Simd.lnot (fun x => some (T.truth x)) a).map sm)
+        | "preinc" => match T.inc .inc with | none => noSuch | some f => res ((Simd.prefix (fun _ => f) .inc a).map fun r => sv r ++ "|" ++ sv r)
+        | "predec" => match T.inc .dec with | none => noSuch | some f => res ((Simd.prefix (fun _ => f) .dec a).map fun r => sv r ++ "|" ++ sv r)
+        | "postinc" => match T.inc .inc with | none => noSuch | some f => res ((Simd.postfix (fun _ => f) .inc a).map fun r => sv r.1 ++ "|" ++ sv r.2)
+        | "postdec" => match T.inc .dec with | none => noSuch | some f => res ((Simd.postfix (fun _ => f) .dec a).map fun r => sv r.1 ++ "|" ++ sv r.2)
+        | "mask" => res ((Simd.compareVS cmpSem .ne a T.zero).map sm)
+        | "isNaN" => match T.classify with | none => noSuch | some c => res ((Simd.isNaN (fun x => some (c x).1) a).map sm)
+        | "isInf" => match T.classify with | none => noSuch | some c => res ((Simd.isInf (fun x => some (c x).2.1) a).map sm)
+        | "isFinite" => match T.classify with | none => noSuch | some c => res ((Simd.isFinite (fun x => some (c x).2.2) a).map sm)
+        | _ => noSuch
+    | "lane", [l, ta] => match l.toNat?, pv ta with
+      | some l, some a => if l < S then res ((Simd.lane l a).map T.show) else "bad-op"
+      | _, _ => "bad-op"
+    | "setlane", [l, x, ta] => match l.toNat?, T.parse x, pv ta with
+      | some l, some x, some a => if l < S then res ((Simd.setLane l x a).map sv) else "bad-op"
+      | _, _, _ => "bad-op"
+    | "cond", [tm, ta, tb] => match parseFlat semBool.parse S tm, pv ta, pv tb with
+      | some m, some a, some b => res ((Simd.cond m a b).map sv)
+      | _, _, _ => "bad-op"
+    | "condb", [m, ta, tb] => match semBool.parse m, pv ta, pv tb with
+      | some m, some a, some b => sv (scalarCond m a b)
+      | _, _, _ => "bad-op"
+    | "bcast", [x] => match T.parse x with | some x => sv (Simd.broadcast x) | none => "bad-op"
+    | "hmax", [ta] => match pv ta with | some a => res ((Simd.hmax lt a.toList).map T.show) | none => "bad-op"
+    | "hmin", [ta] => match pv ta with | some a => res ((Simd.hmin lt a.toList).map T.show) | none => "bad-op"
+    | "lanes", [] => toString (laneCount S 1) ++ " " ++ toString (laneCount S 1)
+    | _, _ => "bad-op"
+  | .nested S₁ S₂ =>
+    let pv := parseNested T.parse S₁ S₂
+    let pf := parseFlat T.parse (S₁ * S₂)
+    let sv := showNested (S₁ := S₁) (S₂ := S₂) T.show
+    let sm := showNested (S₁ := S₁) (S₂ := S₂) showB
+    match kind, rest with
+    | "bin", [form, opn, ta, tb] =>
+      match binOpOf opn with
+      | some op => match T.bin op with
+        | none => noSuch
+        | some f =>
+          let sem : BinOp → α → α → Option α := fun _ => f
+          match form with
+          | "vv" => match pv ta, pv tb with
+            | some a, some b => res ((Simd.binVV loop_BINARY_OP_vv (Simd.binaryVV sem op) a b).map sv) | _, _ => "bad-op"
+          | "vs" => match pv ta, T.parse tb with
+            | some a, some s => res ((Simd.binVS loop_BINARY_OP_vs (Simd.binaryVS sem op) a s).map sv) | _, _ => "bad-op"
+          | "sv" => match T.parse ta, pv tb with
+            | some s, some b => res ((Simd.binSV loop_BINARY_OP_sv (Simd.binarySV sem op) s b).map sv) | _, _ => "bad-op"
+          | _ => "bad-op"
+      | none =>
+      match shiftOpOf opn with
+      | some op => match T.shift op with
+        | none => noSuch
+        | some f =>
+          let sem : ShiftOp → α → α → Option α := fun _ => f
+          match form with
+          | "vv" => match pv ta, pv tb with
+            | some a, some b => res ((Simd.binVV loop_BITSHIFT_OP_vv (Simd.shiftVV sem op) a b).map sv) | _, _ => "bad-op"
+          | "vs" => match pv ta, T.parse tb with
+            | some a, some s => res ((Simd.binVS loop_BITSHIFT_OP_vs (Simd.shiftVS sem op) a s).map sv) | _, _ => "bad-op"
+          | _ => noSuch
+      | none =>
+      match cmpOpOf opn with
+      | some op =>
+          match form with
+          | "vv" => match pv ta, pv tb with
+            | some a, some b => res ((Simd.binVV loop_COMPARISON_OP_vv (Simd.compareVV cmpSem op) a b).map sm) | _, _ => "bad-op"
+          | "vs" => match pv ta, T.parse tb with
+            | some a, some s => res ((Simd.binVS loop_COMPARISON_OP_vs (Simd.compareVS cmpSem op) a s).map sm) | _, _ => "bad-op"
+          | "sv" => match T.parse ta, pv tb with
+            | some s, some b => res ((Simd.binSV loop_COMPARISON_OP_sv (Simd.compareSV cmpSem op) s b).map sm) | _, _ => "bad-op"
+          | _ => "bad-op"
+      | none =>
+      match boolOpOf opn with
+      | some op =>
+          match form with
+          | "vv" => match pv ta, pv tb with
+            | some a, some b => res ((Simd.binVV loop_BOOLEAN_OP_vv (Simd.logicVV logicSem op) a b).map sm) | _, _ => "bad-op"
+          | "vs" => match pv ta, T.parse tb with
+            | some a, some s => res ((Simd.binVS loop_BOOLEAN_OP_vs (Simd.logicVS logicSem op) a s).map sm) | _, _ => "bad-op"
+          | _ => noSuch    -- no `Mask<T> && vector` overload exists for nested vectors
+      | none =>
+      match opn, form, pv ta, pv tb with
+      | "max", "vv", some a, some b =>
+          res ((Simd.binVV loop_STD_BINARY_OP_vv (Simd.stdBin (fun _ x y => some (Simd.stdMax lt x y)) StdBinOp.f_max) a b).map sv)
+      | "min", "vv", some a, some b =>
+          res ((Simd.binVV loop_STD_BINARY_OP_vv (Simd.stdBin (fun _ x y => some (Simd.stdMin lt x y)) StdBinOp.f_min) a b).map sv)
+      | "maskor", "vv", some a, some b =>
+          let mk := fun (v : Vec (Vec α S₂) S₁) => Simd.binVS loop_COMPARISON_OP_vs (Simd.compareVS cmpSem .ne) v T.zero
+          res (((mk a).bind fun ma => (mk b).bind fun mb =>
+            Simd.binVV loop_BOOLEAN_OP_vv (Simd.logicVV (fun (_ : BoolOp) x y => some (x || y)) .lor) ma mb).map sm)
+      | "maskand", "vv", some a, some b =>
+          let mk := fun (v : Vec (Vec α S₂) S₁) => Simd.binVS loop_COMPARISON_OP_vs (Simd.compareVS cmpSem .ne) v T.zero
+          res (((mk a).bind fun ma => (mk b).bind fun mb =>
+            Simd.binVV loop_BOOLEAN_OP_vv (Simd.logicVV (fun (_ : BoolOp) x y => some (x && y)) .land) ma mb).map sm)
+      | _, _, _, _ => if opn ∈ ["max", "min", "maskor", "maskand"] then noSuch else "bad-op"
+    | "asg", [form, opn, ta, tb] =>
+      match assignOpOf opn with
+      | none => noSuch
+      | some op =>
+        let f? : Option (α → α → Option α) := match binOpOf opn with
+          | some b => T.bin b
+          | none => (shiftOpOf opn).bind T.shift
+        match f? with
+        | none => noSuch
+        | some f =>
+          let sem : AssignOp → α → α → Option α := fun _ => f
+          match form with
+          | "vv" => match pv ta, pv tb with
+            | some a, some b => res ((Simd.ipVV loop_ASSIGNMENT_OP_vv (Simd.assignVV sem op) a b).map sv) | _, _ => "bad-op"
+          | "vs" => match pv ta, T.parse tb with
+            | some a, some s => res ((Simd.ipVS loop_ASSIGNMENT_OP_vs (Simd.assignVS sem op) a s).map sv) | _, _ => "bad-op"
+          | _ => noSuch
+    | "un", [opn, ta] =>
+      match pv ta with
+      | none => "bad-op"
+      | some a =>
+        match unOpOf opn with
+        | some op => match T.un op with
+          | none => noSuch
+          | some f => res ((Simd.un loop_UNARY_OP_v (Simd.unary (fun _ => f) op) a).map sv)
+        | none =>
+        let pre := fun (op : IncOp) (f : α → Option α) => Simd.ipUn loop_PREFIX_OP_v (Simd.prefix (fun _ => f) op) a
+        match opn with
+        | "lnot" => res ((Simd.un loop_lnot (Simd.lnot fun x => some (T.truth x)) a).map sm)
+        | "preinc" => match T.inc .inc with | none => noSuch | some f => res ((pre .inc f).map fun r => sv r ++ "|" ++ sv r)
+        | "predec" => match T.inc .dec with | none => noSuch | some f => res ((pre .dec f).map fun r => sv r ++ "|" ++ sv r)
+        | "postinc" => match T.inc .inc with | none => noSuch | some f => res ((pre .inc f).map fun r => sv a ++ "|" ++ sv r)
+        | "postdec" => match T.inc .dec with | none => noSuch | some f => res ((pre .dec f).map fun r => sv a ++ "|" ++ sv r)
+        | "mask" => res ((Simd.binVS loop_COMPARISON_OP_vs (Simd.compareVS cmpSem .ne) a T.zero).map sm)
+        | "isNaN" => match T.classify with
+          | none => noSuch | some c => res ((Simd.un loop_isNaN (Simd.isNaN fun x => some (c x).1) a).map sm)
+        | "isInf" => match T.classify with
+          | none => noSuch | some c => res ((Simd.un loop_isInf (Simd.isInf fun x => some (c x).2.1) a).map sm)
+        | "isFinite" => match T.classify with
+          | none => noSuch | some c => res ((Simd.un loop_isFinite (Simd.isFinite fun x => some (c x).2.2) a).map sm)
+        | _ => noSuch
+    | "lane", [l, ta] => match l.toNat?, pv ta with
+      | some l, some a => if l < S₁ * S₂ then res ((Simd.laneNested l a).map T.show) else "bad-op"
+      | _, _ => "bad-op"
+    | "setlane", [l, x, ta] => match l.toNat?, T.parse x, pv ta with
+      | some l, some x, some a => if l < S₁ * S₂ then res ((Simd.setLaneNested l x a).map sv) else "bad-op"
+      | _, _, _ => "bad-op"
+    | "cond", [tm, ta, tb] => match parseNested semBool.parse S₁ S₂ tm, pv ta, pv tb with
+      | some m, some a, some b => res ((Simd.condNested m a b).map sv)
+      | _, _, _ => "bad-op"
+    | "condb", [m, ta, tb] => match semBool.parse m, pv ta, pv tb with
+      | some m, some a, some b => sv (scalarCond m a b)
+      | _, _, _ => "bad-op"
+    | "bcast", [x] => match T.parse x with
+      | some x => sv (Simd.broadcast (S := S₁) (Simd.broadcast (S := S₂) x)) | none => "bad-op"
+    | "hmax", [ta] => match pv ta with | some a => res ((Simd.hmax lt (Simd.flatten a)).map T.show) | none => "bad-op"
+    | "hmin", [ta] => match pv ta with | some a => res ((Simd.hmin lt (Simd.flatten a)).map T.show) | none => "bad-op"
+    | "implcast", [dir, ta] =>
+      -- defaults.hh: lane(l, result) = lane(l, u) for every l
+      match dir with
+      | "flat" => match pv ta with
+        | some a => res (((List.range (S₁ * S₂)).mapM fun l => Simd.laneNested l a).map fun xs => "[" ++ ",".intercalate (xs.map T.show) ++ "]")
+        | none => "bad-op"
+      | "nest" => match pf ta with
+        | some a =>
+          let z : Vec (Vec α S₂) S₁ := Simd.broadcast (Simd.broadcast T.zero)
+          res (((List.range (S₁ * S₂)).foldlM (fun (r : Vec (Vec α S₂) S₁) l => (Simd.lane l a).bind fun x => Simd.setLaneNested l x r) z).map sv)
+        | none => "bad-op"
+      | _ => noSuch
+    | "lanes", [] => toString (laneCount S₁ (laneCount S₂ 1)) ++ " " ++ toString (laneCount S₁ (laneCount S₂ 1))
+    | _, _ => "bad-op"
+
+-- cmath functions: uninterpreted, given by the table on the op line -----------------------------------------
+
+def parseTable (s : String) : Option (List (String × String)) :=
+  let cs := s.toList
+  if cs.head? ≠ some '{' || cs.getLast? ≠ some '}' then none else
+  let inner := String.ofList ((cs.drop 1).dropLast)
+  if inner.isEmpty then some [] else
+  (inner.splitOn ",").mapM fun e => match e.splitOn ":" with | [k, v] => some (k, v) | _ => none
+
+def execMath (canon : String → Option String) (sh : Shape) (fn ta tt : String) : String :=
+  match parseTable tt with
+  | none => "bad-op"
+  | some tab =>
+    let f : String → Option String := fun x => tab.lookup x
+    let showS := fun (l : List String) => "[" ++ ",".intercalate l ++ "]"
+    match MathOp.all.find? (fun o => o.symbol == fn), MathRetOp.all.find? (fun o => o.symbol == fn),
+          StdUnOp.all.find? (fun o => o.symbol == fn) with
+    | some op, _, _ =>
+      match sh with
+      | .flat S => match parseFlat canon S ta with
+        | some a => res ((Simd.math (fun _ => f) op a).map fun r => showS r.toList) | none => "bad-op"
+      | .nested S₁ S₂ => match parseNested canon S₁ S₂ ta with
+        | some a => res ((Simd.un loop_CMATH_UNARY_OP_v (Simd.math (fun _ => f) op) a).map fun r => showS (Simd.flatten r))
+        | none => "bad-op"
+    | none, some op, _ =>
+      match sh with
+      | .flat S => match parseFlat canon S ta with
+        | some a => res ((Simd.mathRet (fun _ => f) op a).map fun r => showS r.toList) | none => "bad-op"
+      | .nested .. => noSuch   -- `LoopSIMD<returnType,S> out; out[i] = expr(v[i])` does not compile for nested vectors
+    | none, none, some op =>
+      match sh with
+      | .flat S => match parseFlat canon S ta with
+        | some a => res ((Simd.stdUn (fun _ => f) op a).map fun r => showS r.toList) | none => "bad-op"
+      | .nested S₁ S₂ => match parseNested canon S₁ S₂ ta with
+        | some a => res ((Simd.un loop_STD_UNARY_OP_v (Simd.stdUn (fun _ => f) op) a).map fun r => showS (Simd.flatten r))
+        | none => "bad-op"
+    | none, none, none => noSuch
+
+-- dense matrices --------------------------------------------------------------------------------------------
+
+def arithF64 : Arith Float where
+  zero := 0
+  one := 1
+  add := (· + ·)
+  sub := (· - ·)
+  mul := (· * ·)
+  div := (· / ·)
+  neg := fun a => -a
+  abs := Float.abs
+  lt := fun a b => a < b
+  beq := fun a b => a == b
+
+def parseMat (S n : Nat) (tok : String) : Option (Mat (Vec Float S) n) :=
+  (listToks tok).bind fun ts => (ts.mapM semF64.parse).bind fun xs =>
+    if xs.length = n * n * S then
+      ((chunks S (n * n) xs).mapM (mkVec S)).bind fun es => ((chunks n n es).mapM (mkVec n)).bind (mkVec n)
+    else none
+
+def parseVecOfVec (S n : Nat) (tok : String) : Option (Vector (Vec Float S) n) :=
+  (listToks tok).bind fun ts => (ts.mapM semF64.parse).bind fun xs =>
+    if xs.length = n * S then ((chunks S n xs).mapM (mkVec S)).bind (mkVec n) else none
+
+def showLanes {S : Nat} (v : Vec Float S) : String := ",".intercalate (v.toList.map semF64.show)
+def showVecOfVec {S n : Nat} (v : Vector (Vec Float S) n) : String := "[" ++ ",".intercalate (v.toList.map showLanes) ++ "]"
+def showMat {S n : Nat} (A : Mat (Vec Float S) n) : String :=
+  "[" ++ ",".intercalate ((A.toList.map fun r => r.toList.map showLanes).flatten) ++ "]"
+
+def execMat (what : String) (S n : Nat) (piv : Bool) (ta : String) (tb : Option String) : String :=
+  let X := SimdLike.loop S
+  let R := arithF64
+  match parseMat S n ta with
+  | none => "bad-op"
+  | some A =>
+    match what, tb with
+    | "det", none => "[" ++ showLanes (determinant X R piv A) ++ "]"
+    | "solve", some tb => match parseVecOfVec S n tb with
+      | some b => match solve X R piv A b with | some x => showVecOfVec x | none => "ERR:FMatrix"
+      | none => "bad-op"
+    | "inv", none => match invert X R piv A with | some B => showMat B | none => "ERR:FMatrix"
+    | "mv", some tb => match parseVecOfVec S n tb with
+      | some b => showVecOfVec (mv X R A b)
+      | none => "bad-op"
+    | "mm", some tb => match parseMat S n tb with
+      | some B => showMat (rightmultiply X R A B)
+      | none => "bad-op"
+    | "fnorm2", none => "[" ++ showLanes (frobeniusNorm2 X R A) ++ "]"
+    | "infnorm", none => "[" ++ showLanes (infinityNorm X R A) ++ "]"
+    | _, _ => "bad-op"
+
+def redKindOf (s : String) : Option RedKind :=
+  match s with
+  | "anyTrue" => some .anyTrue | "allTrue" => some .allTrue | "anyFalse" => some .anyFalse | "allFalse" => some .allFalse
+  | _ => none
+
+def handle (line : String) : String :=
+  match tokens line with
+  | "mat" :: what :: s :: n :: piv :: ta :: rest =>
+    match s.toNat?, n.toNat? with
+    | some S, some n =>
+      if S ∈ [1, 2, 4, 8] ∧ 1 ≤ n ∧ n ≤ 6 ∧ (piv = "0" ∨ piv = "1") then
+        match rest with
+        | [] => execMat what S n (piv == "1") ta none
+        | [tb] => execMat what S n (piv == "1") ta (some tb)
+        | _ => "bad-op"
+      else "bad-op"
+    | _, _ => "bad-op"
+  | ["reds", what, m] =>
+    match redKindOf what, semBool.parse m with
+    | some k, some m => showB (scalarReduce k m)
+    | _, _ => "bad-op"
+  | ["slane", x, y, m] =>
+    match semF64.parse x, semF64.parse y, semBool.parse m with
+    | some x, some y, some m =>
+      -- lane(0, x), cond(m, x, y), broadcast(x), max(x, y), max(x)
+      " ".intercalate ([x, scalarCond m x y, x, Simd.stdMax (fun a b => a < b) x y, x].map semF64.show)
+    | _, _, _ => "bad-op"
+  | ["red", "b", shp, what, tm] =>
+    match parseShape shp, redKindOf what with
+    | some (.flat S), some k => match parseFlat semBool.parse S tm with
+      | some m => res ((Simd.reduceFlat k m).map showB) | none => "bad-op"
+    | some (.nested S₁ S₂), some k => match parseNested semBool.parse S₁ S₂ tm with
+      | some m => res ((Simd.reduceNested k m).map showB) | none => "bad-op"
+    | _, _ => "bad-op"
+  | ["math", t, shp, fn, ta, tt] =>
+    match parseShape shp with
+    | none => "bad-op"
+    | some sh =>
+      match t with
+      | "f64" => execMath (fun s => (semF64.parse s).map semF64.show) sh fn ta tt
+      | "f32" => match sh with
+        | .flat _ => execMath (fun s => (semF32.parse s).map semF32.show) sh fn ta tt
+        | _ => "bad-op"
+      | _ => noSuch
+  | kind :: t :: shp :: rest =>
+    match parseShape shp with
+    | none => "bad-op"
+    | some sh =>
+      if kind == "red" then noSuch else
+      match t with
+      | "f64" => execT semF64 sh kind rest
+      | "f32" => if nested? sh then "bad-op" else execT semF32 sh kind rest
+      | "i32" => execT (semInt 32) sh kind rest
+      | "i64" => if nested? sh then "bad-op" else execT (semInt 64) sh kind rest
+      | "b" => execT semBool sh kind rest
+      | _ => "bad-op"
+  | _ => "bad-op"
+
+end C09Driver
+
+def main : IO Unit := DV.runDriver C09Driver.handle
